@@ -39,8 +39,18 @@ def gen_cases(ctx, h):
         yield {"stream": STREAM, "op": "range", "min": rng.choice(pool), "max": rng.choice(pool)}
 
 
+def own_term_cases(ctx, h):
+    """the term found does not depend on what kind of term it is: the activations of the C10 stream over their own terms -
+    built-in and user-defined classes (fv/user_terms.py), monotonic or not - instead of constants"""
+    for k in range(ctx.scale(120, 1200)):
+        base = h.gen_case(ctx, k, user=True)
+        acts = [{"name": a["name"], "deg": a["deg"][0] if isinstance(a["deg"], list) else a["deg"]} for a in base["acts"]]
+        yield {"stream": STREAM, "op": "highest", "agg": base["agg"], "terms": base["terms"], "own_terms": True,
+               "inputs": [c[0] if isinstance(c, list) else c for c in base["inputs"]], "acts": acts}
+
+
 def build(case, h):
-    pool = {n: fl.Constant(n, 1.0) for n in case["terms"]}
+    pool = h.build_terms(case) if case.get("own_terms") else {n: fl.Constant(n, 1.0) for n in case["terms"]}
     terms = []
     for a in case["acts"]:
         d = a["deg"]
@@ -130,9 +140,12 @@ def oracle(case, h):
 
 
 def run(ctx, h):
-    st = ctx.stats
     cases = corpus_cases("C10", STREAM) + list(gen_cases(ctx, h))
-    outs = ctx.driver.eval([model_line(c, h) for c in cases])
+    return judge(ctx, h, cases, ctx.driver.eval([model_line(c, h) for c in cases]))
+
+
+def judge(ctx, h, cases, outs):
+    st = ctx.stats
     mism = []
     for case, line in zip(cases, outs):
         st.count(f"{STREAM}:{case['op']}")
